@@ -106,7 +106,11 @@ func genC08Reconnect(env *Env) string {
 	}
 	session(true)
 	for k := 1 + r.Intn(3); k > 0; k-- {
-		parts = append(parts, fmt.Sprintf("X %d", start()))
+		if r.Intn(3) == 0 {
+			parts = append(parts, fmt.Sprintf("X %d", start()))
+		} else {
+			parts = append(parts, "X -") // as InitExportingProcess leaves it
+		}
 		env.Count("reconnect/new-process")
 		if r.Bool() {
 			// data of the previous process's template before it is known again: refused
@@ -148,7 +152,7 @@ func runC08(env *Env) {
 	}
 	// reconnects: the second process counts from its own start
 	for _, proto := range []string{"tcp", "udp"} {
-		emit(fmt.Sprintf("%s 7 4294967293 dig %s %s X 0 %s C 0 ; %s X 4294967295 C 0 ; %s", proto, small.tplSet(env.Rng),
+		emit(fmt.Sprintf("%s 7 4294967293 dig %s %s X - %s C 0 ; %s X 4294967295 C 0 ; %s X - C 0 ; C 1 ;", proto, small.tplSet(env.Rng),
 			manyRecords(small, 5, 1), manyRecords(small, 2, 2), manyRecords(small, 3, 3), manyRecords(small, 2, 4)))
 		env.Count("shape/reconnect")
 	}
